@@ -65,7 +65,7 @@ def run(tier):
                 api_problems.append((sc, e))
             if e["ev"] == "draw_out" and e["res"] == "panic":
                 api_problems.append((sc, e))
-        pe = project.project_nuts(run_ev)
+        pe = project.project_nuts(run_ev, sc)
         for e in pe:
             if e["e"] == "out" and e.get("res") == "ok":
                 draws += 1
